@@ -350,8 +350,49 @@ fn fam_purity(tier: &str) -> Report {
             r.check(same && matches!(first, Outcome::Ok(_)), &format!("[{}] {}", KINDS[k].0, input), "repeated / concurrent expansion of the same input is not token-for-token identical");
         }
     }
+    // history independence: the expansion of an input in a long-lived thread, after (and before) every other input of a
+    // corpus was expanded there, equals its expansion in a FRESH PROCESS (no thread-local or process-global state can
+    // have been left behind by anything).  The corpus contains texts that are valid in one syntactic category and a
+    // prefix of a valid text of another (`a < b` as an expression / `a<b, c>` as a type), operands that are
+    // repeated verbatim across inputs, and all earlier inputs.
+    let mut corpus: Vec<String> = inputs.iter().map(|s| s.to_string()).collect();
+    for (x, y, z) in [("index", "low", "high"), ("a", "b", "c"), ("Vec", "u8", "A")] {
+        corpus.push(format!("{x} < {y}, other |> f"));
+        corpus.push(format!("xs.into_iter() =>[] {x} < {y}, {z} >"));
+        corpus.push(format!("{x} < {y} |> f ~|> g"));
+        corpus.push(format!("ps.into_iter() <-> {x} < {y}, {z} >, {z}, {x}, {y}"));
+        corpus.push(format!("{x} > {y}, {x} >> {y} |> f, {x} >= {y}"));
+        corpus.push(format!("{x} |> {y} ~=> {z}"));
+        corpus.push(format!("{x} => {y} ~|> {z}"));
+        corpus.push(format!("{x} |> >>> |> {y} <<< ~|> {z}"));
+    }
+    let exe = std::env::current_exe().unwrap();
+    let fresh = |input: &str, k: usize| -> String {
+        let o = std::process::Command::new(&exe).args(["expand", &k.to_string(), input]).output().unwrap();
+        String::from_utf8_lossy(&o.stdout).trim().to_string()
+    };
+    for k in [0usize, 1] {
+        let base: Vec<String> = corpus.iter().map(|c| fresh(c, k)).collect();
+        let hist: Vec<Vec<String>> = std::thread::spawn({
+            let corpus = corpus.clone();
+            move || {
+                let mut passes = Vec::new();
+                for pass in 0..3 {
+                    let mut v = vec![String::new(); corpus.len()];
+                    let order: Vec<usize> = if pass == 1 { (0..corpus.len()).rev().collect() } else { (0..corpus.len()).collect() };
+                    for i in order { v[i] = format!("{:?}", expand(&corpus[i], k)); }
+                    passes.push(v);
+                }
+                passes
+            }
+        }).join().unwrap();
+        for (i, c) in corpus.iter().enumerate() {
+            let same = hist.iter().all(|p| p[i] == base[i]);
+            r.check(same, &format!("[{}] {}", KINDS[k].0, c), "the expansion depends on which other inputs were expanded before it in the same thread (differs from a fresh process)");
+        }
+    }
     r.exhaustive = false;
-    r.notes.push(format!("{} repetitions interleaved with other inputs + 4 threads x 4 expansions per (input, kind)", reps));
+    r.notes.push(format!("{} repetitions interleaved with other inputs + 4 threads x 4 expansions per (input, kind); history independence: {} inputs x 2 kinds, 3 orders vs a fresh process each", reps, corpus.len()));
     r
 }
 
